@@ -201,14 +201,30 @@ class C16Exec(execs.PyExec):
             except RecursionError:
                 return "cyclic"
 
-        for attempt in range(3):
+        for attempt in range(4):
             use_np = p["np"] and attempt == 1
+            use_df = p["np"] and attempt == 3   # through the dataframe interface: df.histogrammar(tree)
             before = state()
             q = None
             if not cyclic(t):
                 q = {"before": shape_of(t)}
             try:
-                if use_np:
+                if use_df:
+                    import pandas as _pd
+
+                    rec = execs.np_columns([r[0] for r in rows])
+                    df = _pd.DataFrame({n: rec[n] for n in rec.dtype.names if rec[n].ndim == 1})
+                    try:
+                        df.histogrammar(t)
+                    except ContainerException:
+                        raise
+                    except RecursionError:
+                        raise
+                    except Exception:  # noqa: BLE001
+                        if aliased:
+                            raise
+                        # (a lambda quantity handed a pandas Series, a vector column: not what this property is about)
+                elif use_np:
                     # explicit weight vector: scalar/unit weights on collections are the region of known finding
                     # C03-scalar-weight-count-first
                     import numpy as _np
@@ -231,7 +247,7 @@ class C16Exec(execs.PyExec):
             if aliased:
                 if raised != "container":
                     msgs.append("fill #%d (%s) of a tree containing one aggregator twice (%s) did not raise ContainerException: %s"
-                                % (attempt + 1, "vectorised" if use_np else "row-wise", p["kind"], raised))
+                                % (attempt + 1, "through df.histogrammar" if use_df else ("vectorised" if use_np else "row-wise"), p["kind"], raised))
                 elif state() != before:
                     msgs.append("ContainerException was raised after the state had changed (fill #%d)" % (attempt + 1))
             else:
